@@ -64,6 +64,16 @@ Fixpoint cfresh (s : cslot) : cslot :=
   | CS (Some (_, live, _)) => CS (Some (0, map (map cfresh) live, []))
   end.
 
+(* a fresh copy of a byte array as Value.CopyTo makes it: make([]byte, len(src)) is NEVER nil, also when the source is *)
+Definition cbytes_clone (s : cslot) : cslot :=
+  match s with
+  | CS (Some (_, live, _)) => CS (Some (0, map (map cfresh) live, []))
+  | CS None => CS (Some (0, [], []))
+  | _ => cfresh s
+  end.
+(* []byte{} : empty, not nil (Value.SetEmptyBytes / NewValueBytes since ee4467fcf, Map.PutEmptyBytes since 0d56d0db7) *)
+Definition cempty_bytes : cslot := CS (Some (0, [], [])).
+
 (* ---- zero values ------------------------------------------------------------------------------ *)
 Definition czero_slot (t : sty) : cslot :=
   match t with
@@ -126,9 +136,13 @@ Definition csort (s : cslot) (k : nat) : cslot :=
 Definition crow_key (r : crow) : Z := match r with CP z :: _ => z | _ => 0%Z end.
 Definition key_is (k : Z) (r : crow) : bool := Z.eqb (crow_key r) k.
 Definition mk_any (sc : schema) (tag : nat) (z : Z) : cslot :=
-  if Nat.ltb tag 5 then CI tag z else CR (Some (0, tag, czero_row sc (any_rowty tag))).
+  if Nat.ltb tag 5 then CI tag z
+  else if Nat.eqb tag 7 then CR (Some (0, 7, [cempty_bytes]))   (* PutEmptyBytes: []byte{}, non-nil since 0d56d0db7 *)
+  else CR (Some (0, tag, czero_row sc (any_rowty tag))).
 Definition vmk_any (sc : schema) (tag : nat) (z : Z) : vslot :=
-  if Nat.ltb tag 5 then VI tag z else VR (Some (tag, vzero_row sc (any_rowty tag))).
+  if Nat.ltb tag 5 then VI tag z
+  else if Nat.eqb tag 7 then VR (Some (7, [VS []]))
+  else VR (Some (tag, vzero_row sc (any_rowty tag))).
 
 (* Map.Put* : overwrite the value of the first entry with that key, else append a new entry *)
 Definition cmap_put (sc : schema) (s : cslot) (k : Z) (tag : nat) (z : Z) (newcap : nat) : cslot :=
@@ -191,7 +205,7 @@ Fixpoint ccopy (sc : schema) (t : sty) (s d : cslot) {struct s} : cslot :=
       end
   | TAny, CR (Some (_, tg, r)) =>
       if Nat.eqb tg 7 then                  (* bytes: wrapper kept if of the same kind, array always new *)
-        CR (Some (match d with CR (Some (a, 7, _)) => a | _ => 0 end, 7, map cfresh r))
+        CR (Some (match d with CR (Some (a, 7, _)) => a | _ => 0 end, 7, map cbytes_clone r))
       else
         match d with
         | CR (Some (a, tg', dr)) =>
@@ -310,7 +324,7 @@ Fixpoint craw (r : raw) : cslot :=
   match r with
   | RNil => CI 0 0
   | RScalar t z => CI t z
-  | RBytes zs => CR (Some (0, 7, [cprim_copy (map (fun z => [CP z]) zs) (CS None)]))
+  | RBytes zs => CR (Some (0, 7, [cprim_copy (map (fun z => [CP z]) zs) cempty_bytes]))   (* SetEmptyBytes().FromRaw(raw) *)
   | RMap kvs => CR (Some (0, 5, [mk_cs (map (fun kv => [CP (fst kv); craw (snd kv)]) kvs)]))
   | RSlice l => CR (Some (0, 6, [mk_cs (map (fun v => [craw v]) l)]))
   end.
@@ -338,6 +352,7 @@ Inductive lop :=
 | LMapRemove (j : nat) (k : Z)
 | LFromRawP (j : nat) (zs : list Z)              (* primitive slice FromRaw *)
 | LFromRawB (j : nat) (zs : list Z)
+| LSetBytes (j : nat)                            (* Value.SetEmptyBytes: a new wrapper around an empty NON-NIL slice *)
 | LFromRawV (j : nat) (r : raw)                  (* Value.FromRaw(nested raw value) *)
 | LFromRawM (j : nat) (kvs : list (Z * raw))     (* Map.FromRaw(map[string]any), entries in stored order *)
 | LFromRawS (j : nat) (l : list raw).            (* Slice.FromRaw([]any) *)             (* Value.FromRaw([]byte): SetEmptyBytes().FromRaw(raw) — new wrapper, the bytes are copied *)
@@ -373,7 +388,8 @@ Definition clocal (sc : schema) (o : lop) (r : crow) : option crow :=
   | LPut j k tag z newcap => on_slot j (on_cs (fun s => cmap_put sc s k tag z newcap)) r
   | LMapRemove j k => on_slot j (on_cs (fun s => cmap_remove s k)) r
   | LFromRawP j zs => on_slot j (on_cs (fun s => cprim_copy (prim_rows zs) s)) r
-  | LFromRawB j zs => on_slot j (fun _ => CR (Some (0, 7, [cprim_copy (prim_rows zs) (CS None)]))) r
+  | LFromRawB j zs => on_slot j (fun _ => CR (Some (0, 7, [cprim_copy (prim_rows zs) cempty_bytes]))) r
+  | LSetBytes j => on_slot j (fun _ => CR (Some (0, 7, [cempty_bytes]))) r
   | LFromRawV j rv => on_slot j (fun _ => craw rv) r
   | LFromRawM j kvs => on_slot j (on_cs (fun _ => mk_cs (map (fun kv => [CP (fst kv); craw (snd kv)]) kvs))) r
   | LFromRawS j l => on_slot j (on_cs (fun _ => mk_cs (map (fun v => [craw v]) l))) r
@@ -523,6 +539,7 @@ Definition vlocal (sc : schema) (o : lop) (r : vrow) : option vrow :=
   | LMapRemove j k => on_slot j (on_vs (fun s => vmap_remove s k)) r
   | LFromRawP j zs => on_slot j (on_vs (fun _ => VS (vprim_rows zs))) r
   | LFromRawB j zs => on_slot j (fun _ => VR (Some (7, [VS (vprim_rows zs)]))) r
+  | LSetBytes j => on_slot j (fun _ => VR (Some (7, [VS []]))) r
   | LFromRawV j rv => on_slot j (fun _ => vraw rv) r
   | LFromRawM j kvs => on_slot j (on_vs (fun _ => VS (map (fun kv => [VP (fst kv); vraw (snd kv)]) kvs))) r
   | LFromRawS j l => on_slot j (on_vs (fun _ => VS (map (fun v => [vraw v]) l))) r
